@@ -24,6 +24,7 @@ type Clause struct {
 
 type LoopContract struct {
 	Invariants []*Clause
+	Completes  string // label of a `completes` clause: no iteration ends the process (no call of a function that does not return)
 	Modifies   []string // extra names to havoc (rarely needed)
 }
 
@@ -41,6 +42,7 @@ type FuncContract struct {
 	Trusted    bool // contract assumed, body not verified
 	Extern     bool // non-repository function (assumed)
 	MayPanic   bool
+	NonBlocking bool // `nonblocking`: every channel send in the function's own body must provably find buffer space (its `chan` obligations are claimed even when new)
 	NoBody     bool
 	Loops      map[int]*LoopContract
 	Lemma      bool
@@ -242,7 +244,7 @@ func readContractLines(path string, requirePrefix bool) ([]rawLine, string, erro
 var clauseKeywords = map[string]bool{"requires": true, "ensures": true, "invariant": true, "modifies": true, "pure": true,
 	"trusted": true, "may_panic": true, "loop": true, "func": true, "extern": true, "functype": true, "lemma": true,
 	"sort": true, "fn": true, "axiom": true, "ghost": true, "pkgframe": true, "rely": true, "guarded": true, "lockinv": true,
-	"acquires": true, "releases": true, "opaque": true, "reveal": true, "uses": true, "allocates": true, "noaxioms": true, "ghostset": true, "before_call": true, "macro": true, "define": true, "theorem": true, "entry_assume": true, "captured_requires": true, "lock_protocol": true, "crashinv": true, "note": true, "recfn": true, "props": true}
+	"acquires": true, "releases": true, "opaque": true, "reveal": true, "uses": true, "allocates": true, "noaxioms": true, "ghostset": true, "before_call": true, "macro": true, "define": true, "theorem": true, "entry_assume": true, "captured_requires": true, "lock_protocol": true, "crashinv": true, "note": true, "recfn": true, "props": true, "completes": true, "nonblocking": true}
 
 func firstWord(s string) (string, string) {
 	s = strings.TrimSpace(s)
@@ -388,6 +390,15 @@ func parseDirectives(lines []rawLine, pkgPath string, spec *SpecSet, contracts m
 				}
 				curLoop.Invariants = append(curLoop.Invariants, c)
 			}
+		case "completes":
+			if curLoop == nil {
+				return fmt.Errorf("%s:%d: completes outside loop", d.file, d.line)
+			}
+			lab := strings.Trim(strings.TrimSpace(d.rest), "[]")
+			if lab == "" {
+				lab = "completes"
+			}
+			curLoop.Completes = lab
 		case "modifies":
 			if cur == nil {
 				return fmt.Errorf("%s:%d: modifies outside func", d.file, d.line)
@@ -424,6 +435,11 @@ func parseDirectives(lines []rawLine, pkgPath string, spec *SpecSet, contracts m
 			cur.Trusted = true
 		case "may_panic":
 			cur.MayPanic = true
+		case "nonblocking":
+			if cur == nil {
+				return fmt.Errorf("%s:%d: nonblocking outside func", d.file, d.line)
+			}
+			cur.NonBlocking = true
 		case "note":
 			if cur != nil {
 				cur.Notes = append(cur.Notes, d.rest)
